@@ -313,7 +313,12 @@ func (f *FuncCtx) merge(states []*State) *State {
 			pk[k] = true
 		}
 	}
+	var pkeys []string
 	for k := range pk {
+		pkeys = append(pkeys, k)
+	}
+	sort.Strings(pkeys)
+	for _, k := range pkeys {
 		// marks are adopted GUARDED by the selector of the branch they come from: on the other branches the heap is unchanged
 		sameHeap := true
 		for _, s := range ss[1:] {
